@@ -78,9 +78,12 @@ class Run:
             # definite counterexamples from the bounded refutation pass (quantifier-free, with model)
             bmc = (r.get("bmc") or {}).get("counterexamples", [])
             confirmed = set()
+            replays = {strip_line(o["name"]): o["replay"] for o in r["obligations"] if o.get("replay")}
             for c in bmc:
                 c["key"] = re.sub(r":bmc\d+:", ":", strip_line(c["name"]))
                 c["bmc_bound"] = r["bmc"]["bound"]
+                if c["key"] in replays and not c.get("replay"):
+                    c["replay"] = replays[c["key"]]       # the unbounded model of the same obligation was replayed on the real code
                 if c["key"] not in confirmed:
                     confirmed.add(c["key"])
                     self._refuted(r, c)
